@@ -9,6 +9,7 @@ import (
 	"path/filepath"
 	"strings"
 	"sync"
+	"syscall"
 
 	"github.com/RoaringBitmap/roaring"
 	"github.com/blugelabs/bluge"
@@ -341,6 +342,54 @@ func runC13(c *vk.Ctx) {
 		run(&c13Case{Kind: index.ItemKindSnapshot, Size: nb.Len(), Pre: pre, Fault: "none", RealItem: "snapshot"}, snap, nb.Bytes())
 		run(&c13Case{Kind: index.ItemKindSnapshot, Size: nb.Len(), Pre: pre, Fault: "os-write", FaultAt: 4097, RealItem: "snapshot"}, snap, nb.Bytes())
 		run(&c13Case{Kind: index.ItemKindSnapshot, Size: nb.Len(), Pre: pre, Fault: "os-close", RealItem: "snapshot"}, snap, nb.Bytes())
+	}
+	// a pre-existing item that a reader still holds (shared lock, as the directory's Load takes it): a
+	// Persist under that name cannot get its exclusive lock. Whatever it reports, no PARTIAL file may be
+	// under the name afterwards: the earlier complete item untouched, or nothing, or (on success) the new one.
+	for _, kind := range []string{index.ItemKindSegment, index.ItemKindSnapshot} {
+		for _, size := range []int{0, 1, 4097, 12305} {
+			for _, preLen := range []int{1, 4096, 20000} {
+				id++
+				name := fmt.Sprintf("%012x%s", id, kind)
+				path := filepath.Join(dir, name)
+				old := pattern(preLen, 0x33)
+				if err := os.WriteFile(path, old, 0o600); err != nil {
+					continue
+				}
+				hf, err := os.Open(path)
+				if err != nil {
+					continue
+				}
+				if err := syscall.Flock(int(hf.Fd()), syscall.LOCK_SH|syscall.LOCK_NB); err != nil {
+					_ = hf.Close()
+					continue
+				}
+				data := pattern(size, 0x77)
+				perr := fsd.Persist(kind, id, &c13Item{data: data, chunk: 4096, failAfter: -1, cancelAt: -1}, make(chan struct{}))
+				held := make([]byte, preLen+16)
+				n, _ := hf.ReadAt(held, 0)
+				got, rerr := os.ReadFile(path)
+				c.Eval(1)
+				c.Event("fault_item-held-by-a-reader", 1)
+				cs := &c13Case{Kind: kind, Size: size, Pre: fmt.Sprintf("held-%d", preLen), Fault: "held-by-reader"}
+				if perr != nil {
+					cs.Err = perr.Error()
+				}
+				switch {
+				case perr == nil && rerr == nil && bytes.Equal(got, data):
+					c.Distinct(fmt.Sprintf("held|%s|%d|%d|replaced", kind, size, preLen))
+				case perr != nil && rerr != nil:
+					c.Distinct(fmt.Sprintf("held|%s|%d|%d|removed", kind, size, preLen))
+				case perr != nil && rerr == nil && bytes.Equal(got, old) && bytes.Equal(held[:n], old):
+					c.Distinct(fmt.Sprintf("held|%s|%d|%d|kept", kind, size, preLen))
+				default:
+					c.Violate("partial-file-left-after-failure:item-held-by-a-reader", fmt.Sprintf("kind %s, new item %d bytes over an item of %d bytes that a reader holds: Persist returned %v; under the name: %d bytes (read error %v); through the reader's handle: %d bytes", kind, size, preLen, perr, len(got), rerr, n), cs)
+				}
+				_ = syscall.Flock(int(hf.Fd()), syscall.LOCK_UN)
+				_ = hf.Close()
+				_ = os.Remove(path)
+			}
+		}
 	}
 	c.Exhaustive(true)
 	c.Set("exhaustive_scope", "the boundary grid described in rule (all combinations enumerated; the quick tier thins chunkings and the 'equal' pre-state for fault cases)")
